@@ -40,7 +40,37 @@ def build(mods, imps, level_limit=None, check=True):
                 {"mods": sorted(mods), "imps": sorted(imps), "extra_nodes": sorted(gm - tm), "missing_nodes": sorted(tm - gm), "extra_imports": sorted(gi - ti), "missing_imports": sorted(ti - gi)},
             )
         HUB.register_truth(ev, tm, ti)
+    if check and (len(mods) * 31 + len(imps)) % 3 == 0:
+        hostile_reads(ev, mods)
     return ev
+
+
+def hostile_reads(ev, mods):
+    """What a caller may legitimately do before evaluating rules: use the read accessors of the architecture and do
+    whatever it likes with THEIR results (they are the caller's objects).  Every third driver-built architecture gets
+    this treatment; the monitors then judge the rules as always."""
+    try:
+        from pytestarch.eval_structure.evaluable_architecture import ModuleNameFilter
+
+        ms = ev.modules
+        if isinstance(ms, list):
+            del ms[::2]
+        names = [m for m in mods if "." in m][:4]
+        fs = [ModuleNameFilter(name=n) for n in names]
+        for acc_name in ("get_dependencies", "any_dependencies_from_dependents_to_modules_other_than_dependent_upons", "any_other_dependencies_on_dependent_upons_than_from_dependents"):
+            try:
+                res = getattr(ev, acc_name)(fs[:2], fs[2:] or fs[:1])
+            except Exception:  # noqa: BLE001
+                continue
+            if isinstance(res, dict):
+                for v in res.values():
+                    if isinstance(v, list):
+                        v.clear()
+                res.clear()
+        HUB.acc.count("architectures_with_hostile_accessor_reads")
+    except Exception as e:  # noqa: BLE001  (renamed internals: nothing to be hostile with)
+        HUB.acc.count("hostile_reads_unavailable")
+        HUB.acc.hist("hostile_reads_error", type(e).__name__)
 
 
 def _arg(names, as_list=None):
@@ -49,9 +79,23 @@ def _arg(names, as_list=None):
     return names[0]
 
 
-def mk_rule(cfg, list_form=None):
-    """Builds the rule through the real fluent API."""
+def mk_rule(cfg, list_form=None, retarget=None):
+    """Builds the rule through the real fluent API.  retarget=(evaluable, decoy_name): the rule prefix is first
+    completed with a decoy object and applied (outcome ignored), then the SAME object gets its real objects by
+    calling the filter method again - the documented way of re-using a kept prefix; the last specification counts."""
     from pytestarch import Rule
+
+    if retarget is not None and not cfg.get("anything") and cfg["objs"] and cfg["objs"][0][0] != "regex":
+        ev, decoy = retarget
+        r = _prefix(cfg, list_form)
+        try:
+            getattr(r, FILTER_METHOD["named"])(decoy)
+            r.assert_applies(ev)
+        except Exception:  # noqa: BLE001  (whatever the decoy rule says)
+            pass
+        okind = cfg["objs"][0][0]
+        HUB.acc.count("rules_retargeted_after_application")
+        return getattr(r, FILTER_METHOD[okind])(_arg([n for _, n in cfg["objs"]], list_form))
 
     r = Rule().modules_that()
     skind = cfg["subs"][0][0]
@@ -69,6 +113,18 @@ def mk_rule(cfg, list_form=None):
     if okind == "regex":
         return r.have_name_matching(onames[0])
     return getattr(r, FILTER_METHOD[okind])(_arg(onames, list_form))
+
+
+def _prefix(cfg, list_form=None):
+    """subject + verb + import type, no object yet."""
+    from pytestarch import Rule
+
+    r = Rule().modules_that()
+    skind = cfg["subs"][0][0]
+    snames = [n for _, n in cfg["subs"]]
+    r = r.have_name_matching(snames[0]) if skind == "regex" else getattr(r, FILTER_METHOD[skind])(_arg(snames, list_form))
+    r = getattr(r, cfg["verb"])()
+    return getattr(r, IMPORT_METHOD[(cfg["dir"], cfg["exc"])])()
 
 
 def run(rule, ev):
